@@ -120,3 +120,12 @@ Proof. vm_compute. auto. Qed.
 Example C03_string_hyp_met :   (* a\x41\u0042\103\0\<LF>\q *)
   sv sv_spec [97;92;120;52;49;92;117;48;48;52;50;92;49;48;51;92;48;92;10;92;113]%Z = Some [97;65;66;67;0;113]%Z.
 Proof. vm_compute. reflexivity. Qed.
+(* the no-in flag after /repo 18fccf6 (ES5 11.12): inside a for initialiser the middle
+   operand of ?: takes `in`, the last operand still leaves it to the for-in header *)
+Example C03_noin_conditional_model :
+  let a := TAtom (AId 1%Z) in let b := TAtom (AId 2%Z) in let c := TAtom (AId 3%Z) in let d := TAtom (AId 4%Z) in
+  parse 100 0 true [(false, a); (false, TQ); (false, b); (false, TOp In); (false, c); (false, TColon); (false, d)]
+    = Some (ECond (EAtom (AId 1%Z)) (EBin In (EAtom (AId 2%Z)) (EAtom (AId 3%Z))) (EAtom (AId 4%Z)), []) /\
+  parse 100 0 true [(false, a); (false, TQ); (false, b); (false, TColon); (false, c); (false, TOp In); (false, d)]
+    = Some (ECond (EAtom (AId 1%Z)) (EAtom (AId 2%Z)) (EAtom (AId 3%Z)), [(false, TOp In); (false, d)]).
+Proof. vm_compute. auto. Qed.
